@@ -260,7 +260,11 @@ impl Scenario for Hb {
             let open_delay = p["open_delay_ms"].as_u64().unwrap_or(0);
             let mut v: Vec<(u64, usize)> = vec![(open_delay * MS, 1)];
             v.extend(p["server"].as_array().unwrap().iter().map(|ev| (ev[0].as_u64().unwrap().max(open_delay) * MS, 1)));
+            // (what the scripted server sends in reply to the client - read at some instant -
+            // arrived no later than that)
+            v.extend(o.read_times.iter().cloned());
             v.retain(|(t, _)| *t <= horizon);
+            v.sort();
             v
         } else {
             o.read_times.clone()
